@@ -68,7 +68,7 @@ def _grain_blob(q, grain_bytes, *, compressed, lba, lba_value=0, level=6, noise=
 
 def build_hosted(ents, present, *, capacity, grain, gtes, footer=False, compressed=False, lba=True, file_id=0, desc=None,
                  slot_mult=1, level=6, rgd=False, max_pos=None, name=None, magic=b"KDMV", version=1, zero_gte=True,
-                 tight=False, noise=None, data_base_min=0, rgd_off=0, unclean=0, csalt=0):
+                 tight=False, noise=None, data_base_min=0, rgd_off=0, unclean=0, csalt=0, desc_slack=1):
     """ents: per real grain ("U"|"Z"|"D", q); present: per real grain table bool.
     capacity, grain in sectors.  data_base_min: first sector of the grain data area is at least this (sector numbers
     beyond 2^31; with a footer the tables follow the data, so directory entries are that large as well).
@@ -77,7 +77,7 @@ def build_hosted(ents, present, *, capacity, grain, gtes, footer=False, compress
     ngd = -(-capacity // (gtes * grain))
     assert len(present) >= ngd, (len(present), ngd)
     desc_b = (desc or descriptor_text([f'RW {capacity} SPARSE "disk.vmdk"'])).encode()
-    desc_size = -(-len(desc_b) // SECTOR) + 1
+    desc_size = -(-len(desc_b) // SECTOR) + desc_slack     # desc_slack = 0: the descriptor may fill its sectors to the last byte
     desc_off = 1
     cur = desc_off + desc_size
     flags = FLAG_NEWLINE | (FLAG_ZERO_GTE if zero_gte else 0) | (FLAG_COMPRESSED if compressed else 0) | (FLAG_LBA if compressed and lba else 0)
